@@ -417,6 +417,10 @@ def tolerance(q):
 # ---------------------------------------------------------------------------
 # interpreter
 # ---------------------------------------------------------------------------
+def _nan_without_fault(ref):
+    return (not is_exc(ref)) and np.isscalar(ref) and not np.isfinite(ref)
+
+
 def fault_expectation(kind, q, res, n):
     """Documented failure value of a faulted call (F1)."""
     if q == 'call':
@@ -584,7 +588,13 @@ def run(scenario, world):
                     # no documented value to expect; what matters is that the
                     # object is unchanged for the evaluations that follow
                     world.probe('evaluation_with_non_finite_solver_output')
-                elif not fault_expectation(kind, q, res, n):
+                elif not fault_expectation(kind, q, res, n) and not (
+                        q == 'call' and not is_exc(res) and np.isscalar(res)
+                        and np.isnan(res) and _nan_without_fault(
+                            reference(h, q, pidx, vec, aux))):
+                    # (-inf for the failed individual plus a term that is
+                    # nan at this point even without any fault is nan: the
+                    # point is outside the numerical range anyway)
                     raise Violation(
                         'fault.documented_value', q,
                         '%s.%s under a solver failure returned %s' % (
